@@ -421,6 +421,193 @@ def standin_cast_values(tier, seed):
     return dict(name='cast_values', bound=bound, cases=3 * len(cs), status='ok')
 
 
+# ------------------------------------------------------------------ select: which field a value names
+# reference/expressions.md "Conditionals": the selected expression resolves "to a string or boolean naming the field to select"; "If the field
+# selected is not in the tuple then the default value will be used.  If no default is specified then select will throw a compile failure for
+# the unhandled case."  A boolean names the field `true` / `false` (the reference's own example), a string names the field of that text.
+SEL_NAMES = ['true', 'false', 'on', 'off']
+# (source of the selected expression, the field name it names)
+SEL_CONDS = [('true', 'true'), ('false', 'false'), ('1 == 1', 'true'), ('1 == 2', 'false'), ('"true"', 'true'), ('"false"', 'false'), ('"on"', 'on'), ('"off"', 'off'),
+             ('"zz"', 'zz'), ('"True"', 'True'), ('"FALSE"', 'FALSE'), ('"of" + "f"', 'off'), ('str(1 == 2)', 'false'), ('"tru"', 'tru'), ('"falsey"', 'falsey'), ('"o"', 'o')]
+SEL_QUICK = ['true', 'false', '1 == 1', '1 == 2', '"true"', '"false"', '"on"', '"off"', '"zz"', '"True"', '"tru"', '"falsey"']
+
+
+def sel_field_lists(tier, seed=0):
+    import itertools
+    out = []
+    for k in (1, 2, 3) + ((4,) if tier == 'thorough' else ()):
+        perms = list(itertools.permutations(SEL_NAMES, k))
+        if tier != 'thorough' and k == 3:
+            perms = perms[seed % 2::2]              # quick: every second list of three (which half depends on the seed)
+        out += perms
+    if tier != 'thorough':
+        out += [('on', 'off', 'false', 'true'), ('off', 'true', 'on', 'false'), ('true', 'false', 'on', 'off'), ('false', 'on', 'true', 'off')]
+    return out
+
+
+def select_cases(tier, seed=0):
+    """(program, expected value text or None for a build error, cond, fields, has default, form)"""
+    cs = []
+    for li, fl in enumerate(sel_field_lists(tier, seed)):
+        for ci, (cond, names) in enumerate(SEL_CONDS):
+            if tier != 'thorough' and cond not in SEL_QUICK:
+                continue
+            for dflt in (True, False):
+                if tier != 'thorough' and cond.startswith('"') and (li + ci + dflt) % 2:     # quick: strings with OR without a default, alternating
+                    continue
+                # every second tuple quotes its field names ("quoted field" = .. is the same field, reference "Selector operators")
+                quoted = (li + ci) % 2 == 1
+                body = ', '.join('%s = "F:%s"' % (('"%s"' % n) if quoted else n, n) for n in fl)
+                exp = ('"F:%s"' % names) if names in fl else ('"D"' if dflt else None)
+                head = 'select (%s, "D")' if dflt else 'select (%s)'
+                form = (li + ci + dflt) % 3
+                if form == 0:       # the selected expression stands in the select
+                    prog = 'let x = %s => {%s};' % (head % cond, body)
+                elif form == 1:     # it is a function's parameter
+                    prog = 'let f = func (c) => %s => {%s};\nlet x = f(%s);' % (head % 'c', body, cond)
+                else:               # it is a field of a tuple / the select is a field value
+                    prog = 'let t = {c = %s};\nlet r = {v = %s => {%s}};\nlet x = r.v;' % (cond, head % 't.c', body)
+                cs.append((prog, exp, cond, fl, dflt, form))
+    return cs
+
+
+def standin_select_matrix(tier, seed):
+    cs = select_cases(tier, seed)
+    progs = [c[0] for c in cs]
+    res = R.driver('eval', progs)
+    # the same programs through `ucg build` (type checker + VM), the value pinned by a fail expression behind `||`
+    rnd = random.Random(seed + 77)
+    bidx = list(range(len(cs))) if tier == 'thorough' else sorted(rnd.sample(range(len(cs)), 100))
+    bprogs = [cs[i][0] + ('' if cs[i][1] is None else '\nlet chk = (x == %s) || fail "PINNED-VALUE-DIFFERS";' % cs[i][1]) for i in bidx]
+    resb = R.driver('buildfile', bprogs)
+    bound = ('%d select expressions: selected value in {%s} x field lists = every '
+             'ordered choice of 1..%s of the names {true, false, on, off} (%d lists; bare / quoted names alternate) x default present / absent%s, rotating over 3 forms (in place, function parameter, tuple field); '
+             'expected: the field the value names, else the default, else a build error; + %d of them through `ucg build` with the value pinned'
+             % (len(cs), ', '.join(c for c, _ in SEL_CONDS if tier == 'thorough' or c in SEL_QUICK), '4' if tier == 'thorough' else '2, half of those of 3 (+ 4 lists of all four)', len(sel_field_lists(tier, seed)),
+                '' if tier == 'thorough' else ' (string values: alternating)', len(bidx)))
+    n = len(cs) + len(bidx)
+    for (prog, exp, cond, fl, dflt, form), (st, out) in zip(cs, res):
+        got = (X.cfields(out) or {}).get('x') if st == 'OK' else None
+        if (exp is None and st != 'ERR') or (exp is not None and got != exp):
+            want = exp or 'a build error (unhandled case, no default)'
+            return dict(name='select_matrix', bound=bound, cases=n, status='violation',
+                        detail='`%s`: x is %s; the reference defines %s (the value names the field `%s`, the tuple has %s, %s)' % (
+                            prog.replace('\n', ' '), ('%s %s' % (st, got)) if st == 'OK' else '%s %s' % (st, out[:120].replace('\n', ' ')), want, dict(SEL_CONDS)[cond], list(fl), 'default "D"' if dflt else 'no default'),
+                        input=dict(source=prog, expected=want, observed='%s %s' % (st, out[:300]), how=HOW['eval']))
+    for i, prog, (st, out) in zip(bidx, bprogs, resb):
+        exp = cs[i][1]
+        if (exp is None) != (st != 'OK'):
+            return dict(name='select_matrix', bound=bound, cases=n, status='violation',
+                        detail='`%s`: expected %s, observed %s %s' % (prog.replace('\n', ' '), 'a build that finds x == %s' % exp if exp else 'a build error (unhandled case, no default)', st, out[:200].replace('\n', ' ')),
+                        input=dict(source=prog, expected=exp or 'build error', observed='%s %s' % (st, out[:300]), how=HOW['buildfile']))
+    return dict(name='select_matrix', bound=bound, cases=n, status='ok')
+
+
+# ------------------------------------------------------------------ format expressions: placeholders vs arguments
+# reference/expressions.md "Format Expressions": "a string followed by the `%` operator and a list of arguments in parentheses separated by commas ... The format
+# string should have `@` characters in each location where a value should be placed.  Any primitive value can be used as an argument." / "The `@` symbol can
+# be escaped with a double slash" (`"...\\@@:@/" % (host, port)`) / "If the `%` operator is followed by a parenthesized expression it will be treated as the
+# first form with one item."  One argument per placeholder, in order; a different number of arguments is a build error (known_findings.txt, fix 631b477: surplus
+# arguments used to shift every placeholder; 7d66449: too few used to panic).
+# NOT in the family (the pinned tree deviates from the reference, reported): the reference says "Trailing commas are allowed" -- `"@" % (1,)` and
+# `"@ @" % (1, 2,)` are parse errors ("Expected format arguments") on the pinned tree; an empty argument list `"a" % ()` is a parse error as well (the
+# reference does not mention it).
+FMT_KNOWN = ['format-args-trailing-comma']
+FMT_ARGS = {
+    'ints': [('11', '11'), ('22', '22'), ('33', '33'), ('44', '44'), ('55', '55')],
+    'strs': [('"a"', 'a'), ('"bb"', 'bb'), ('"c c"', 'c c'), ('""', ''), ('"e@e"', 'e@e')],
+    'mixed': [('1 + 1', '2'), ('"s"', 's'), ('true', 'true'), ('2.5', '2.5'), ('"é" + "ü"', 'éü')],
+    'refs': [('t.a', '7'), ('t.l.1', '9'), ('t.s', 'str'), ('t.a * 2', '14'), ('t.a == 7', 'true')],
+}
+
+
+def fmt_templates(p):
+    """(source text of the template inside the quotes, [literal pieces around the p placeholders]) -- several shapes per p"""
+    E = '\\\\@'                     # the escaped `@` as it is written in UCG source (reference: "escaped with a double slash")
+    shapes = []
+    shapes.append(['p%d=' % i for i in range(p)] + [';'])                                 # text before every placeholder and at the end
+    shapes.append([''] * (p + 1))                                                         # nothing but placeholders: "@@@"
+    shapes.append([''] + [' '] * (p - 1) + ['']) if p >= 2 else None                      # "@ @ @"
+    shapes.append(['<'] + ['|'] * (p - 1) + ['>'] if p else ['<>'])                       # "<@|@>"
+    shapes.append(['é:'] + ['·'] * (p - 1) + [' ✓'] if p else ['é ✓'])                    # non-ASCII text around
+    out = []
+    for lits in shapes:
+        out.append((''.join(l + '@' for l in lits[:-1]) + lits[-1], lits))
+    # escaped @ before / between / after the placeholders (an escaped @ is text, never a placeholder)
+    base = ['x'] + ['-'] * (p - 1) + ['y'] if p else ['xy']
+    for at in sorted(set([0, len(base) // 2, len(base) - 1])):
+        src_l = [l + (E if i == at else '') for i, l in enumerate(base)]
+        val_l = [l + ('@' if i == at else '') for i, l in enumerate(base)]
+        out.append((''.join(l + '@' for l in src_l[:-1]) + src_l[-1], val_l))
+    out.append((E + ''.join('@' + E for _ in range(p)), ['@'] * (p + 1)))                 # `\\@@\\@@\\@`: escaped and real ones alternate
+    return out
+
+
+def format_cases(tier):
+    cs = []
+    k = 0
+    for p in range(0, 5):
+        for ti, (tsrc, lits) in enumerate(fmt_templates(p)):
+            for n in range(1, 6):
+                for ai, (aname, pool) in enumerate(sorted(FMT_ARGS.items())):
+                    k += 1
+                    if tier != 'thorough' and p != n and (k % 2):        # quick: every matching pair, half of the mismatching ones
+                        continue
+                    args = pool[ti % 5:] + pool[:ti % 5]
+                    args = args[:n]
+                    exp = None
+                    if p == n:
+                        exp = ''.join(l + a[1] for l, a in zip(lits, args)) + lits[-1]
+                    pre = 'let t = {a = 7, l = [8, 9], s = "str"};\n' if aname == 'refs' else ''
+                    alist = ', '.join(a[0] for a in args)
+                    ctx = k % 5
+                    if ctx == 0:
+                        prog = pre + 'let x = "%s" %% (%s);' % (tsrc, alist)
+                    elif ctx == 1:      # inside a function that is called later; the arguments are its parameters
+                        ps = ', '.join('a%d' % i for i in range(n))
+                        prog = pre + 'let f = func (%s) => "%s" %% (%s);\nlet x = f(%s);' % (ps, tsrc, ps, alist)
+                    elif ctx == 2:      # inside a map callback
+                        prog = pre + 'let l = map(func (q) => "%s" %% (%s), [0]);\nlet x = l.0;' % (tsrc, alist)
+                    elif ctx == 3:      # a tuple field next to other fields, selected afterwards
+                        prog = pre + 'let r = {before = 1, v = "%s" %% (%s), after = "@"};\nlet x = r.v;' % (tsrc, alist)
+                    else:               # operand of a concatenation inside a module
+                        prog = pre + 'let m = module {k = 0} => (r) { %slet r = "[" + "%s" %% (%s) + "]"; };\nlet x = m{};' % (pre.replace('\n', ' '), tsrc, alist)
+                        if exp is not None:
+                            exp = '[' + exp + ']'
+                    cs.append((prog, exp, p, n))
+    return cs
+
+
+def standin_format_counts(tier, seed):
+    cs = format_cases(tier)
+    progs = [c[0] for c in cs]
+    res = R.driver('eval', progs)
+    rnd = random.Random(seed + 78)
+    bidx = list(range(len(cs))) if tier == 'thorough' else sorted(rnd.sample(range(len(cs)), 100))
+    bprogs = [cs[i][0] + ('' if cs[i][1] is None else '\nlet chk = (x == %s) || fail "PINNED-VALUE-DIFFERS";' % X.cshow(cs[i][1])) for i in bidx]
+    resb = R.driver('buildfile', bprogs)
+    n = len(cs) + len(bidx)
+    bound = ('%d list-form format expressions: templates with p = 0..4 `@` placeholders in 8..9 shapes each (text around, none, blanks, non-ASCII text, an escaped `\\\\@` before / between / after, escaped and real '
+             'ones alternating) x n = 1..5 arguments (ints, strings incl. one holding an @, mixed primitives, selectors / arithmetic) in 5 contexts (top level, function body with the parameters as arguments, '
+             'map callback, tuple field, module body)%s; expected: p == n renders every argument in order, p != n is a build error; + %d of them through `ucg build` with the value pinned; the '
+             'reference\'s trailing comma in the argument list is NOT enumerated (parse error on the pinned tree, reported)' % (len(cs), '' if tier == 'thorough' else ' [all p == n, half of the p != n]', len(bidx)))
+    for (prog, exp, p, na), (st, out) in zip(cs, res):
+        got = (X.cfields(out) or {}).get('x') if st == 'OK' else None
+        if (exp is None and st != 'ERR') or (exp is not None and got != X.cshow(exp)):
+            want = X.cshow(exp) if exp is not None else 'a build error (%d placeholders, %d arguments)' % (p, na)
+            return dict(name='format_counts', bound=bound, cases=n, status='violation',
+                        detail='`%s`: x is %s; expected %s' % (prog.replace('\n', ' '), ('%s %s' % (st, got)) if st == 'OK' else '%s %s' % (st, out[:120].replace('\n', ' ')), want),
+                        input=dict(source=prog, expected=want, observed='%s %s' % (st, out[:300]), how=HOW['eval']))
+    for i, prog, (st, out) in zip(bidx, bprogs, resb):
+        exp = cs[i][1]
+        if (exp is None) != (st != 'OK'):
+            return dict(name='format_counts', bound=bound, cases=n, status='violation',
+                        detail='`%s`: expected %s, observed %s %s' % (prog.replace('\n', ' '), 'a build that finds x == %s' % X.cshow(exp) if exp is not None else 'a build error (%d placeholders, %d arguments)' % (cs[i][2], cs[i][3]),
+                                                                     st, out[:200].replace('\n', ' ')),
+                        input=dict(source=prog, expected=X.cshow(exp) if exp is not None else 'build error', observed='%s %s' % (st, out[:300]), how=HOW['buildfile']))
+    return dict(name='format_counts', bound=bound, cases=n, status='ok')
+
+
 def int_leaves(path, v):
     """(selector path, int) for every int inside the value"""
     if isinstance(v, dict):
@@ -437,5 +624,5 @@ def unshow(v):
     return '(0 - %s)' % v[1:] if re.match(r'-\d+$', v) else v
 
 
-STANDINS = [standin_semantics_table, standin_self_copies, standin_self_copies_build, standin_cast_values,
+STANDINS = [standin_semantics_table, standin_select_matrix, standin_format_counts, standin_self_copies, standin_self_copies_build, standin_cast_values,
             X.standin_closure_cases_eval, X.standin_closure_prefixes]
